@@ -28,7 +28,7 @@ def tag {α : Type} (t : String) (f : α → Val) : Outcome α → Outcome Val
   | .err e => .err (t ++ e)
   | .panic p => .panic p
 
-def parse (s : List Char) : Outcome Val :=
+def parseWith (fixed : Bool) (s : List Char) : Outcome Val :=
   if Regex.satName s then tag "" .sat (Sub.satFromStr s)
   else if Regex.satpoint s then tag "satpoint:" .satPoint (SatPoint.parse s)
   else if Regex.inscriptionId s then tag "inscription:" .inscriptionId (InscriptionId.parse s)
@@ -39,10 +39,14 @@ def parse (s : List Char) : Outcome Val :=
       | .err e => .err ("rune-amount:" ++ e)
       | .panic p => .panic p
       | .ok d =>
-        match Sub.spacedRuneFromStr name with
+        match Sub.spacedRuneFromStrWith fixed name with
         | .err e => .err e
         | .panic p => .panic p
         | .ok (r, sp) => .ok (.rune d.value d.scale r sp)
     | none => .err "unrecognized"
+
+/-- `Outgoing::from_str` as it is in /repo now (`fixed` = is the SpacedRune repair present,
+re-extracted from the source on every run) -/
+def parse (s : List Char) : Outcome Val := parseWith Ord.Generated.SpacedRuneFix.shlFixed s
 
 end Ord.Text.Outgoing
